@@ -1576,6 +1576,14 @@ fn boundary_integers() -> Vec<i64> {
 fn extra_leaves() -> Vec<T> {
     let mut v = extra_leaves_base();
     v.extend(boundary_integers().into_iter().map(T::I));
+    // bulk strings and arrays whose length header changes its number of digits, or crosses 2^16
+    // (a pre-computed header width, a u16 counter, a pre-sized buffer go wrong exactly here)
+    for n in [9usize, 10, 99, 100, 999, 1000, 9_999, 10_000, 65_535, 65_536, 99_999, 100_000] {
+        v.push(b(&vec![b'a' + (n % 7) as u8; n]));
+        if n <= 65_536 {
+            v.push(T::A(Some((0..n).map(|i| T::I((i % 3) as i64)).collect())));
+        }
+    }
     v
 }
 
